@@ -5,7 +5,7 @@ import re
 
 import vlib
 
-PROPS = ['Rangers.Props.C09', 'Rangers.Props.C09B', 'Rangers.Props.C09C', 'Rangers.Props.C09D', 'Rangers.Props.C09E', 'Rangers.Props.C09F']
+PROPS = ['Rangers.Props.C09', 'Rangers.Props.C09B', 'Rangers.Props.C09C', 'Rangers.Props.C09D', 'Rangers.Props.C09E', 'Rangers.Props.C09F', 'Rangers.Props.C09G']
 DRIVERS = ['C09']
 META = dict(
     level='proof',
@@ -52,6 +52,31 @@ def gen(ctx):
     return dict(ok=True, changed=changed, facts=info)
 
 
+def _hooks_present(ctx):
+    """verif hooks H11 (network) and H12 (core) are needed for the envelope / frame / transaction-request ops."""
+    return all(os.path.exists(os.path.join(ctx.repo, f)) for f in
+               ('src/network/verif_c09_export.go', 'src/core/verif_c09_export.go'))
+
+
+class _tags:
+    """Build the harness with the extra tag c09hooks when the hooks are in the tree under test."""
+    def __init__(self, ctx):
+        self.extra = _hooks_present(ctx)
+
+    def __enter__(self):
+        self.orig = vlib.go_build
+        if self.extra:
+            orig = self.orig
+
+            def go_build(ctx, moddir, pkg, outname, tags='verif', race=False):
+                return orig(ctx, moddir, pkg, outname, tags=(tags + ',c09hooks') if tags else 'c09hooks', race=race)
+            vlib.go_build = go_build
+        return self
+
+    def __exit__(self, *a):
+        vlib.go_build = self.orig
+
+
 def canon(op, x):
     if x.startswith('PANIC'):
         return 'panic'
@@ -63,8 +88,14 @@ def nontrivial(op, x):
 
 
 def correspond(ctx):
-    c = vlib.correspond(ctx, 'c09', 'C09', ['mode=corr'], canon=canon, timeout=900, nontrivial=nontrivial)
+    with _tags(ctx) as t:
+        c = vlib.correspond(ctx, 'c09', 'C09', ['mode=corr'], canon=canon, timeout=900, nontrivial=nontrivial)
     c['name'] = 'codec'
+    hooks_note = ('H11/H12 present: envelope, frame-header and transaction-request ops included' if t.extra else
+                  'verif hooks H11 (network) / H12 (core) absent from the tree under test: envelope, frame-header and '
+                  'transaction-request ops NOT run')
+    if isinstance(c.get('stats'), dict):
+        c['stats']['hooks'] = hooks_note
     # a broken tie is not agreement: the model must understand every op, and a healthy share of the
     # stream must be successful marshals/parses on BOTH sides (not errors agreeing with errors)
     if c.get('bad_op', 0) > 0:
@@ -83,6 +114,11 @@ def correspond(ctx):
 
 
 def search(ctx, hints):
+    with _tags(ctx):
+        return _search(ctx, hints)
+
+
+def _search(ctx, hints):
     binp, log = vlib.go_build(ctx, vlib.HARNESS, './cmd/c09', 'c09')
     if not binp:
         return dict(evaluations=0, distinct_nontrivial=0, violations=[], samples=[], error='harness build failed: ' + log[-1500:])
